@@ -47,6 +47,14 @@ End(s, a) ==
                           !.sub = [x \in DOMAIN s.sub \ {c.g} |-> s.sub[x]], !.avail = @ \cup {c.idx}], "ok", NoWrite)
          ELSE R([s EXCEPT !.calls = rest], IF a = "reject" THEN "rejected" ELSE "exception", NoWrite)
 
+(* the caller of call `id` is cancelled while its write has not reached the NCP yet (still queued behind other traffic): the write never   *)
+(* happens; a subscribe gives its claimed index back; nothing else changes                                                              *)
+CancelQueued(s, id) ==
+    LET k == CHOOSE k \in 1 .. Len(s.calls) : s.calls[k].id = id
+        c == s.calls[k] IN
+    R([s EXCEPT !.calls = SelectSeq(s.calls, LAMBDA x : x.id # id),
+                !.avail = IF c.op = "sub" THEN @ \cup {c.idx} ELSE @], "cancelled", NoWrite)
+
 (* ---- clauses *)
 Claimed(s) == {s.calls[k].idx : k \in {k \in 1 .. Len(s.calls) : s.calls[k].op = "sub"}}
 (* every index is free, used by exactly one group, or claimed by exactly one subscribe in progress *)
